@@ -103,6 +103,16 @@ def _deepcopy_temporal(ctx) -> None:
                 and kws.get("fold") == "self.fold"
         if ok:
             ctx.ob("DEEPCOPY.class", "DateTime.__deepcopy__", True, "rebuilt from the pickle state tuple (field list checked by STATE-COMPLETE), fold passed on", m.rel)
+        elif len(r) == 1 and isinstance(r[0].value, ast.Call) and isinstance(r[0].value.func, ast.Attribute) and r[0].value.func.attr == "instance" \
+                and [nun(a) for a in r[0].value.args][:1] == ["self"]:
+            # copied through the conversion constructor: it re-reads the value in a timezone - its `tz` default applies to a naive value
+            c = r[0].value
+            d = core.defaults(m.func("DateTime.instance")).get("tz")
+            tzarg = core.kw(c).get("tz") if "tz" in core.kw(c) else (c.args[1] if len(c.args) > 1 else None)
+            passes_none = tzarg is not None and core.is_const(tzarg, None)
+            ctx.ob("DEEPCOPY.class", "DateTime.__deepcopy__", passes_none or (d is not None and core.is_const(d, None)),
+                   f"returns `{nun(c)[:60]}`: instance() gives a naive value the timezone tz={nun(tzarg) if tzarg is not None else nun(d) + ' (its default)'} - "
+                   f"the copy of a naive DateTime is then aware and no longer equal to it", m.loc(r[0]))
         elif len(r) == 1:
             ctx.unverified("DEEPCOPY.class", "DateTime.__deepcopy__", f"returns `{nun(r[0].value)[:80]}`", m.rel)
         else:
